@@ -1,4 +1,5 @@
 import LexVerif.Model.ParseNumber
+import LexVerif.Proof.GrammarMain
 /-!
 # C12 — syntax flags accept exactly the documented grammar (property theorems, first instalment)
 
@@ -268,5 +269,239 @@ def complete_iff_partial : Prop :=
 example :
     peek ⟨{ format := true }, ⟨0xc + 0x5f * 2 ^ 64 + 0xfff * 2 ^ 32 + 10 * 2 ^ 104⟩, false⟩ .integer
       { slc := [95, 49], index := 0 } = .ok (some 49, { slc := [95, 49], index := 1 }) := by rfl
+
+
+/-! ## The documented grammar (`Spec.Grammar`) — specification side -/
+
+open LexVerif.Spec LexVerif.Proof.Grammar
+
+/-- **`standard_is_fromstr`, specification half.** For every format without syntax flags, base prefix and base
+suffix (STANDARD, every `from_radix` / mixed-base format), under every feature set, the documented grammar *is* the
+flag-free grammar `[+-]? digits* (. digits*)? (e [+-]? digits+)?` + specials of `Spec.parseStdComplete`
+(which the correspondence stream `fromstr` compares with Rust's own `str::parse`). -/
+theorem grammar_standard_eq_std (feats : Features) (f : Format) (hflags : f.flagBits = 12) (hp : f.basePrefix = 0)
+    (hs : f.baseSuffix = 0) (o : POpts) (wf : SpecialsWF o) (s : List Nat) :
+    grammarFloatComplete feats f o s = parseStdComplete f.mantissaRadix f.exponentRadix o s := by
+  unfold grammarFloatComplete
+  rw [syn_of_plain feats f hflags hp hs]
+  exact grammarFloatSyn_std _ _ o wf s
+
+/-- … and with the cargo feature `format` off *every* format has that grammar (no flag is configurable) -/
+theorem grammar_noformat_eq_std (feats : Features) (hf : feats.format = false) (f : Format) (o : POpts)
+    (wf : SpecialsWF o) (s : List Nat) :
+    grammarFloatComplete feats f o s = parseStdComplete f.mantissaRadix f.exponentRadix o s := by
+  unfold grammarFloatComplete
+  rw [syn_of_noformat feats f hf]
+  exact grammarFloatSyn_std _ _ o wf s
+
+/-- the default option strings are well formed -/
+theorem default_specials_wf : SpecialsWF ({} : POpts) := by
+  refine ⟨by decide, by decide, by decide, ?_, ?_⟩
+  · intro a as b bs h1 h2
+    have e1 : a = 78 := by
+      have : ({} : POpts).nan = some [78, 97, 78] := rfl
+      rw [this] at h1; injection h1 with h1; injection h1 with h1 _; exact h1.symm
+    subst e1
+    rcases h2 with h2 | h2
+    · have : ({} : POpts).inf = some [105, 110, 102] := rfl
+      rw [this] at h2; injection h2 with h2; injection h2 with h2 _; subst h2; decide
+    · have : ({} : POpts).infinity = some [105, 110, 102, 105, 110, 105, 116, 121] := rfl
+      rw [this] at h2; injection h2 with h2; injection h2 with h2 _; subst h2; decide
+  · intro a b h1 h2
+    have e1 : ({} : POpts).inf = some [105, 110, 102] := rfl
+    have e2 : ({} : POpts).infinity = some [105, 110, 102, 105, 110, 105, 116, 121] := rfl
+    rw [e1] at h1; rw [e2] at h2
+    injection h1 with h1; injection h2 with h2
+    subst h1; subst h2; decide
+
+/-- non-vacuity: STANDARD itself, default options -/
+example (s : List Nat) :
+    grammarFloatComplete {} Format.standard {} s = parseStdComplete 10 10 {} s :=
+  grammar_standard_eq_std {} Format.standard (by decide) (by decide) (by decide) {} default_specials_wf s
+
+/-! ## Model versus grammar -/
+
+/-- a format whose digit separator, separator flags and base prefix are all absent -/
+def SepPrefixFree (f : Format) : Prop :=
+  f.digitSeparator = 0 ∧ f.basePrefix = 0 ∧
+  f.integerInternalSep = false ∧ f.fractionInternalSep = false ∧ f.exponentInternalSep = false ∧
+  f.integerLeadingSep = false ∧ f.fractionLeadingSep = false ∧ f.exponentLeadingSep = false ∧
+  f.integerTrailingSep = false ∧ f.fractionTrailingSep = false ∧ f.exponentTrailingSep = false ∧
+  f.integerConsecutiveSep = false ∧ f.fractionConsecutiveSep = false ∧ f.exponentConsecutiveSep = false ∧
+  f.specialSep = false
+
+theorem byteAt_lt (f : Format) (k : Nat) : f.byteAt k ≤ 255 := by
+  unfold Format.byteAt
+  have := Nat.mod_lt (f.raw / 2 ^ k) (by decide : 0 < 256)
+  omega
+
+theorem exponentRadix_le (f : Format) : f.exponentRadix ≤ 255 := by
+  unfold Format.exponentRadix
+  split
+  · exact byteAt_lt f 104
+  · exact byteAt_lt f 120
+
+/-- the standing assumptions of `Proof.Grammar*` from assumptions on the format: release build, and either the
+`format` feature is off or the format has no separator / prefix; `hr8`: without `power-of-two` the radix is 10
+(a consequence of `FormatValid` for consistent feature sets). -/
+theorem std_of (c : Cfg) (hd : c.debug = false) (h : c.feats.format = false ∨ SepPrefixFree c.fmt)
+    (hr8 : c.feats.powerOfTwo = false → c.mantissaRadix ≤ 10) : Std c := by
+  refine ⟨?_, hd, ?_, hr8, byteAt_lt c.fmt 104, exponentRadix_le c.fmt⟩
+  · rcases h with h | h
+    · exact NoSep.of_noformat c h
+    · obtain ⟨h0, _, a1, a2, a3, a4, a5, a6, a7, a8, a9, a10, a11, a12, a13⟩ := h
+      constructor <;>
+        simp [Cfg.digitSeparator, Cfg.sepFlags, Cfg.flag, Cfg.specialSep, SepFlags.none, *]
+  · rcases h with h | h
+    · simp [Cfg.basePrefix, h]
+    · simp [Cfg.basePrefix, h.2.1]
+
+/-- C12 target. For every valid format, valid options and separator-free input: the complete parser of the model
+accepts iff the documented grammar derives the input, with the same value / special. -/
+def accepts_iff_grammar : Prop :=
+  ∀ (feats : Features) (f : Format) (o : POpts) (ty : Spec.Fmt) (s : List Nat),
+    (formatError feats f).isNone → (optionsError o).isNone → isValidOptionsPunctuation feats f o.exp o.dp = true →
+    checkRadix feats f = true → (∀ x ∈ s, x < 256) → separatorFree f s = true →
+    parseFloatModel feats f o false ty s = (grammarFloatComplete feats f o s).render ty f.mantissaRadix f.exponentBase false
+      ∨ (grammarFloatComplete feats f o s = .err ∧ (parseFloatModel feats f o false ty s).startsWith "err")
+
+/-- **What is proved of `accepts_iff_grammar`** (syntax layer `parseFloatSyntax`, i.e. up to the `Number`):
+for every feature set and every format without digit separator and base prefix — in particular every format when
+the `format` feature is off, and all single-flag / flag-combination formats —, every options record whose special
+strings are well-formed letters, every byte string with something after the optional sign, release build:
+* accepted ⇒ `Verdict`: the grammar derives the whole input (`numberOk`) and the `Number` has the derivation's
+  sign, integer digits, fraction digits and exponent (`NumberIs`; exponent as accumulated by the implementation,
+  equal to the exact one below `0x10000000`), or the grammar derives the same special value with the same sign;
+* rejected with an `Error` ⇒ the grammar rejects.
+Not covered (kept in `accepts_iff_grammar`): panic / fault exits of the many-digit re-parse (C10
+`parseNumber_total`), `numberBits n = litBits (content)` for at most `u64_step` digits (C01/C05 territory),
+the entry-point validation of `parseFloatModel`, and the excluded classes below, which are *findings*:
+empty input / bare sign (`body = []`), formats with a base prefix, formats with a digit separator. -/
+theorem accepts_iff_grammar_partial (c : Cfg) (hd : c.debug = false)
+    (hfmt : c.feats.format = false ∨ SepPrefixFree c.fmt)
+    (hr8 : c.feats.powerOfTwo = false → c.mantissaRadix ≤ 10)
+    (o : POpts) (wf : SpecialsWF o) (hlet : LettersOnly o) (s : List Nat) (hb : ∀ x ∈ s, x < 256) (fv : Bool)
+    (hbody : (splitSign s).2 ≠ []) :
+    (∀ p, parseFloatSyntax c o false s fv = .ok p → Verdict c o s p) ∧
+    (∀ k i, parseFloatSyntax c o false s fv = .error (.err k i) →
+      grammarFloatComplete c.feats c.fmt o s = .err) :=
+  parseFloatSyntax_grammar (std_of c hd hfmt hr8) o wf hlet s hb fv hbody
+
+/-- same kind of result, same sign, whole input consumed -/
+def Agrees (len : Nat) : Parsed → FRes → Prop
+  | .number n cnt, .num l k => cnt = len ∧ k = len ∧ n.isNegative = l.neg
+  | .special .nan _ cnt, .nan k => cnt = len ∧ k = len
+  | .special .inf neg cnt, .inf neg2 k => cnt = len ∧ k = len ∧ neg = neg2
+  | _, _ => False
+
+/-- a `Verdict` means the grammar accepts (with the matching kind of result) -/
+theorem verdict_grammar (c : Cfg) (o : POpts) (s : List Nat) (hs : s ≠ []) (p : Parsed) (h : Verdict c o s p) :
+    Agrees s.length p (grammarFloatComplete c.feats c.fmt o s) := by
+  have he : s.isEmpty = false := by cases s <;> simp_all
+  cases h with
+  | number n P hP hok hn =>
+    have : grammarFloatComplete c.feats c.fmt o s = .num (P.lit (cfgSyn c)) s.length := by
+      unfold grammarFloatComplete grammarFloatSyn
+      simp only [he, Bool.false_eq_true, if_false]
+      rw [hP] at hok ⊢
+      simp only [cfgSyn] at hok
+      simp only [hok, if_true, cfgSyn]
+    rw [this]
+    exact ⟨rfl, rfl, by rw [hn.neg, hP]; rfl⟩
+  | special t hno hsg hsp =>
+    have : grammarFloatComplete c.feats c.fmt o s =
+        (match t with | true => .nan s.length | false => .inf ((splitSign s).1 == some true) s.length) := by
+      unfold grammarFloatComplete grammarFloatSyn
+      simp only [he, Bool.false_eq_true, if_false]
+      simp only [cfgSyn] at hno hsg hsp
+      simp only [hno, Bool.false_eq_true, if_false, hsg, if_true, hsp]
+      cases t <;> rfl
+    rw [this]
+    cases t
+    · exact ⟨rfl, rfl, rfl⟩
+    · exact ⟨rfl, rfl⟩
+
+/-- **(a) STANDARD accepts exactly the FromStr grammar + specials, model side.** With the `format` feature off (any
+radix), in the release build, for inputs with something after the optional sign: whatever the model's complete
+parser accepts, `Spec.parseStdComplete` accepts with the same kind of result, sign and count; whatever it rejects
+with an `Error`, `parseStdComplete` rejects. -/
+theorem model_noformat_vs_std (c : Cfg) (hd : c.debug = false) (hf : c.feats.format = false)
+    (hr8 : c.feats.powerOfTwo = false → c.mantissaRadix ≤ 10)
+    (o : POpts) (wf : SpecialsWF o) (hlet : LettersOnly o) (s : List Nat) (hb : ∀ x ∈ s, x < 256) (fv : Bool)
+    (hbody : (splitSign s).2 ≠ []) :
+    (∀ p, parseFloatSyntax c o false s fv = .ok p →
+      Agrees s.length p (parseStdComplete c.fmt.mantissaRadix c.fmt.exponentRadix o s)) ∧
+    (∀ k i, parseFloatSyntax c o false s fv = .error (.err k i) →
+      parseStdComplete c.fmt.mantissaRadix c.fmt.exponentRadix o s = .err) := by
+  have hs : s ≠ [] := by intro h; subst h; exact hbody rfl
+  obtain ⟨h1, h2⟩ := accepts_iff_grammar_partial c hd (Or.inl hf) hr8 o wf hlet s hb fv hbody
+  rw [grammar_noformat_eq_std c.feats hf c.fmt o wf s] at h2
+  refine ⟨fun p hp => ?_, h2⟩
+  have := verdict_grammar c o s hs p (h1 p hp)
+  rw [grammar_noformat_eq_std c.feats hf c.fmt o wf s] at this
+  exact this
+
+
+/-! ## Findings: negation witnesses on the model (`decide`d), one per excluded class
+
+Each pair is "the model's complete parser says A, the documented grammar says B" for a concrete format of the
+catalogue `fmtcat_pnum.py` (feature set `radix+format`) and the default options. The same inputs disagree on the
+implementation (`VERIF_SETS=radix+format ./check C12 quick`). -/
+
+def modelAccepts (c : Cfg) (o : POpts) (s : List Nat) : Bool :=
+  match parseFloatSyntax c o false s with
+  | .ok _ => true
+  | .error _ => false
+
+def grammarAccepts (c : Cfg) (o : POpts) (s : List Nat) : Bool :=
+  match grammarFloatComplete c.feats c.fmt o s with
+  | .err => false
+  | _ => true
+
+def featsRF : Features := { radix := true, powerOfTwo := true, format := true }
+/-- `prefix_d_radix10` : radix 10, base prefix `d` -/
+def cfgPrefixD : Cfg := ⟨featsRF, ⟨0xa0a0a0064000000000000000000000c⟩, false⟩
+/-- `prefix_d_nolz` : radix 10, base prefix `d`, `no_float_leading_zeros` -/
+def cfgPrefixDNolz : Cfg := ⟨featsRF, ⟨0xa0a0a0064000000000000000000200c⟩, false⟩
+/-- `flag_none` : no flag set (no digits required) -/
+def cfgNoFlags : Cfg := ⟨featsRF, ⟨0xa0a0a00000000000000000000000000⟩, false⟩
+/-- `sepmix_frac_i` : digit separator `_`, allowed only between fraction digits -/
+def cfgSepFracI : Cfg := ⟨featsRF, ⟨0xa0a0a000000005f000000020000000c⟩, false⟩
+/-- `sepmix_int_i` : digit separator `_`, allowed only between integer digits -/
+def cfgSepIntI : Cfg := ⟨featsRF, ⟨0xa0a0a000000005f000000010000000c⟩, false⟩
+
+/-- finding (base prefix swallows a leading zero): `0`, `-0`, `0e5`, `0.` are rejected by a format that merely
+*allows* a base prefix ("a leading `0x` will be ignored, if present"; table: `1` valid) -/
+theorem finding_prefix_zero :
+    (modelAccepts cfgPrefixD {} [48] = false ∧ grammarAccepts cfgPrefixD {} [48] = true) ∧
+    (modelAccepts cfgPrefixD {} [45, 48] = false ∧ grammarAccepts cfgPrefixD {} [45, 48] = true) ∧
+    (modelAccepts cfgPrefixD {} [48, 101, 53] = false ∧ grammarAccepts cfgPrefixD {} [48, 101, 53] = true) ∧
+    (modelAccepts cfgPrefixD {} [48, 46] = false ∧ grammarAccepts cfgPrefixD {} [48, 46] = true) := by decide
+
+/-- finding (`no_float_leading_zeros` is switched off by the prefix code): `0012` accepted; table: `01` invalid -/
+theorem finding_prefix_leading_zeros :
+    modelAccepts cfgPrefixDNolz {} [48, 48, 49, 50] = true ∧ grammarAccepts cfgPrefixDNolz {} [48, 48, 49, 50] = false := by
+  decide
+
+/-- finding (empty input accepted when no digits are required; "empty strings are still invalid") -/
+theorem finding_empty_input :
+    modelAccepts cfgNoFlags {} [] = true ∧ grammarAccepts cfgNoFlags {} [] = false := by decide
+
+/-- finding (C13 root cause, visible on separator-free input): a format with a digit separator in only some
+components rejects `12345678` (8 digits, no separator byte) … -/
+theorem finding_sep_format_rejects_plain_digits :
+    modelAccepts cfgSepFracI {} [49, 50, 51, 52, 53, 54, 55, 56] = false ∧
+    grammarAccepts cfgSepFracI {} [49, 50, 51, 52, 53, 54, 55, 56] = true := by decide
+
+/-- … and stores a one-byte fraction slice for `1.123456789` (the digits of the 8-digit fast loop are not
+counted), which is what mis-scales the value -/
+theorem finding_sep_format_loses_fraction_digits :
+    (match parseFloatSyntax cfgSepIntI {} false [49, 46, 49, 50, 51, 52, 53, 54, 55, 56, 57] with
+      | .ok (.number n _) => n.fraction == some [49] && n.exponent == -1
+      | _ => false) = true := by decide
+
+/-- non-vacuity of `accepts_iff_grammar_partial`: a flagged format, an accepted and a rejected input -/
+example : modelAccepts ⟨featsRF, ⟨0xa0a0a0000000000000000000000400c⟩, false⟩ {} [49, 101, 53] = true ∧
+    modelAccepts ⟨featsRF, ⟨0xa0a0a0000000000000000000000400c⟩, false⟩ {} [49] = false := by decide
 
 end LexVerif.Props.C12
